@@ -19,6 +19,12 @@ CHECKS = {
  "C16": ("fam-cw1", "at every reachable state x sender class x message: CanExecute query compared with Execute on a copy of the state (exhaustive BFS over states)", "5 C16"),
  "C17": ("fam-cw1", "explicit-state BFS over admin/freeze/grant histories to fixpoint; reference {admins, mutable}", "5 C17"),
  "C20": ("fam-paging", "exhaustive sweep of the pager state machine (listing x store size x limit x cursor) over stores built through the real entry points; expected pages derived from point queries", "5 C20"),
+ "C09": ("fam-cw4", "explicit-state BFS over cw4-group update histories and cw4-stake bond/unbond histories (kernel with bank) to fixpoint under a capped clock; reference = true membership at the start of every block, compared with Member/TotalWeight at every height, paged ListMembers and the raw keys", "5 C09"),
+ "C10": ("fam-cw4", "explicit-state BFS over cw4-stake with native and real cw20 stake tokens in the kernel to fixpoint (finite funds) plus depth-bounded 2^64/2^128 edge configs; reference ledger of stakes and claims vs real holdings, Staked/Claims/Member queries", "5 C10"),
+ "C14": ("fam-cw4", "explicit-state BFS over admin/hook/membership histories of cw4-group and cw4-stake to fixpoint; reference {admin, hooks, members}; hook notifications folded per address against true previous/new weights", "5 C14"),
+ "C11": ("fam-ics20", "explicit-state BFS over the real cw20-ics20 entry points (execute, ibc_packet_receive/ack/timeout, reply) in the kernel with an IBC driver, adversarial incoming packets and injected payout failures (fault bound); solvency invariant per token and paid<=escrowed monitors per channel", "5 C11"),
+ "C12": ("fam-ics20", "same exploration with an honest-counterparty reference of outstanding = sent - failed - redeemed, error-ack => whole observable world unchanged, packet content oracle, over governance configurations and byte-built pre-allow-list storages followed by migrate", "5 C12"),
+ "C18": ("fam-ics20", "explicit-state BFS over Allow/UpdateAdmin/migrate/transfer histories to fixpoint; reference {gov, allow list, default}; gas_limit of every payout sub-message read from the kernel dispatch trace", "5 C18"),
 }
 TODO = {}
 props = [json.loads(l) for l in open('/verif/properties.jsonl')]
@@ -51,6 +57,8 @@ m = {
    {"name": "mc", "path": "/verif/harness/mc", "serves_properties": [c["property_id"] for c in checks], "kind_free_text": "deterministic cloneable mini-chain kernel + level-synchronous parallel BFS explorer + evidence/replay/known-finding reporting"},
    {"name": "fam-cw20", "path": "/verif/harness/fam-cw20", "serves_properties": ["C01","C02","C13","C19"], "kind_free_text": "cw20-base alphabets, reference ledger and oracles"},
    {"name": "fam-cw1", "path": "/verif/harness/fam-cw1", "serves_properties": ["C07","C08","C16","C17"], "kind_free_text": "cw1-whitelist / cw1-subkeys grant machine, probes, reference ledger"},
+   {"name": "fam-cw4", "path": "/verif/harness/fam-cw4", "serves_properties": ["C09","C10","C14"], "kind_free_text": "cw4-group / cw4-stake (+bank, real cw20-base) history reference, stake ledger, hook-diff oracle"},
+   {"name": "fam-ics20", "path": "/verif/harness/fam-ics20", "serves_properties": ["C11","C12","C18"], "kind_free_text": "cw20-ics20 with IBC driver (channel open/connect, receive, ack, timeout), fault injection, migrated storages"},
    {"name": "fam-paging", "path": "/verif/harness/fam-paging", "serves_properties": ["C20"], "kind_free_text": "pager state machine sweep over all 21 list queries"},
    {"name": "kernel-diff", "path": "/verif/harness/kernel-diff", "serves_properties": [], "kind_free_text": "conformance of the kernel to cw-multi-test 2.0.0: exhaustive differential replay of all action sequences up to a depth in 8 scenarios (./check kernel-diff); exit 2 on disagreement"},
    {"name": "sr-cross", "path": "/verif/harness/sr-cross", "serves_properties": [], "kind_free_text": "engine cross-validation: the same models explored with stateright 0.31 BFS; unique-state counts and verdicts must agree with mc::bfs (cargo run -p sr-cross)"},
